@@ -652,7 +652,7 @@ func (w *world) forceCleanPermsOnly() {
 func (w *world) runLive(replay *Case) {
 	c := w.c
 	targets := c14corpus.Targets()
-	phs := c14corpus.Placeholders()
+	phs := c14corpus.AllPlaceholders()
 	if len(targets) != c14corpus.NTargets || len(targets) < 380 {
 		vk.Fatalf("corpus has %d targets", len(targets))
 	}
